@@ -367,7 +367,7 @@ theorem seqNoticeInProgress_eq (q : Seq) (now : Nat) :
 
 /-- `StartNoticePeriod`: the notice ends at block time + `NoticePeriod` (`unbond`) -/
 theorem noticePeriodEnd_eq (s : St) :
-    Gen.Core.noticePeriodEnd (encT s.t) s.p.noticePeriod = encNotice (some (s.t + s.p.noticePeriod)) := by
+    Gen.Core.noticePeriodEnd (encT s.t) s.sqp.noticePeriod = encNotice (some (s.t + s.sqp.noticePeriod)) := by
   simp [Gen.Core.noticePeriodEnd, encT, encNotice]; omega
 
 /-! ### x/sequencer/keeper: bonds -/
@@ -466,9 +466,9 @@ theorem slashLiveness_eq (s : St) (r : Rollapp) :
         match getSeq s a with
         | none => .ok s
         | some q =>
-          match slash s q (Gen.Core.livenessSlashAmt q.tokens s.p.lsAbs s.p.lsMul) ⟨0⟩ none with
+          match slash s q (Gen.Core.livenessSlashAmt q.tokens s.sqp.lsAbs s.sqp.lsMul) ⟨0⟩ none with
           | .error e => .error e
-          | .ok (s1, q1) => .ok (setSeq s1 { q1 with dishonor := Gen.Core.livenessDishonor s1.p.dishonorL q1.dishonor }) := rfl
+          | .ok (s1, q1) => .ok (setSeq s1 { q1 with dishonor := Gen.Core.livenessDishonor s1.sqp.dishonorL q1.dishonor }) := rfl
 
 /-- `livenessHonor`: the dishonor decreases by min(DishonorStateUpdate, dishonor) (`seqAfterUpdate`) -/
 theorem livenessHonor_eq (p : Params) (d : Nat) : Gen.Core.livenessHonor p.dishonorSU d = d - min p.dishonorSU d := rfl
@@ -478,7 +478,7 @@ theorem seqAfterUpdate_eq (s : St) (m : UpdMsg) (isLast : Bool) :
       match getSeq s m.sender with
       | none => .error .internal
       | some prop =>
-        let prop1 := { prop with dishonor := Gen.Core.livenessHonor s.p.dishonorSU prop.dishonor }
+        let prop1 := { prop with dishonor := Gen.Core.livenessHonor s.sqp.dishonorSU prop.dishonor }
         if isLast then onProposerLastBlock (setSeq s prop1) prop1 else .ok (setSeq s prop1) := rfl
 
 /-- `slash`: the reward is the truncated product, the remainder is burned -/
@@ -497,7 +497,7 @@ theorem slash_eq (s : St) (q : Seq) (amt : Nat) (rewardMul : Dec) (rewardee : Op
 theorem punishRewardMul_eq : Gen.Core.punishRewardMul = (⟨500000000000000000⟩ : Dec) := rfl
 
 
-theorem noticePeriodEnd_raw (s : St) : Gen.Core.noticePeriodEnd s.t s.p.noticePeriod = s.t + s.p.noticePeriod := rfl
+theorem noticePeriodEnd_raw (s : St) : Gen.Core.noticePeriodEnd s.t s.sqp.noticePeriod = s.t + s.sqp.noticePeriod := rfl
 
 /-- `ForkLatestAllowed` = `ForkAllowed` at the latest height -/
 theorem forkLatestAllowed_eq (r : Rollapp) :
@@ -2070,6 +2070,116 @@ theorem punishSequencer_skeleton : Gen.Core.L.punishSequencer =
    "    return err",
    "  k.SetSequencer(ctx, seq)",
    "  return nil"] := rfl
+
+/-- `NewSequencerProposalHandler` (the legacy gov route of x/sequencer): the only content type it serves
+    is the punish proposal — `Core.Op.punish` -/
+theorem newSequencerProposalHandler_skeleton : Gen.Core.L.newSequencerProposalHandler =
+  ["func NewSequencerProposalHandler(k keeper.Keeper) govtypes.Handler",
+   "  return func#1",
+   "    func#1 (ctx sdk.Context, content govtypes.Content) error",
+   "      switch c := content.(type)",
+   "        case *types.PunishSequencerProposal",
+   "          return HandlePunishSequencerProposal(ctx, k, c)",
+   "        default",
+   "          return types.ErrUnknownRequest"] := rfl
+
+/-- `HandlePunishSequencerProposal` as mirrored by `Core.punishProposal`: `PunishSequencer` and nothing
+    else (no fork, no role change) -/
+theorem handlePunishSequencerProposal_skeleton : Gen.Core.L.handlePunishSequencerProposal =
+  ["func HandlePunishSequencerProposal(ctx sdk.Context, k keeper.Keeper, p *types.PunishSequencerProposal) error",
+   "  err := k.PunishSequencer(ctx, p.PunishSequencerAddress, p.MustRewardee())",
+   "  if err != nil",
+   "    return err",
+   "  return nil"] := rfl
+
+/-- x/sequencer `msgServer.UpdateParams` as mirrored by `Core.setSeqParams` -/
+theorem msgUpdateSeqParams_skeleton : Gen.Core.L.msgUpdateSeqParams =
+  ["func (k msgServer) UpdateParams(goCtx context.Context, msg *types.MsgUpdateParams) (*types.MsgUpdateParamsResponse, error)",
+   "  if k.authority != msg.Authority",
+   "    return nil, sdkerrors.ErrInvalidRequest",
+   "  err := k.ValidateParams(ctx, msg.Params)",
+   "  if err != nil",
+   "    return nil, err",
+   "  k.SetParams(ctx, msg.Params)",
+   "  return &types.MsgUpdateParamsResponse{}, nil"] := rfl
+
+/-- `Keeper.ValidateParams`: the kick threshold must not be 0 -/
+theorem validateSeqParams_skeleton : Gen.Core.L.validateSeqParams =
+  ["func (k Keeper) ValidateParams(_ sdk.Context, params types.Params) error",
+   "  if params.DishonorKickThreshold == 0",
+   "    return gerrc.ErrOutOfRange",
+   "  return nil"] := rfl
+
+/-- `Keeper.SetParams`: the whole set is replaced -/
+theorem setSeqParamsK_skeleton : Gen.Core.L.setSeqParamsK =
+  ["func (k Keeper) SetParams(ctx sdk.Context, params types.Params)",
+   "  store := ctx.KVStore(k.storeKey)",
+   "  bz := k.cdc.MustMarshal(&params)",
+   "  store.Set(types.ParamsKey, bz)"] := rfl
+
+/-- x/sequencer `Params.ValidateBasic` (run by `MsgUpdateParams.ValidateBasic`) -/
+theorem seqParamsValidateBasic_skeleton : Gen.Core.L.seqParamsValidateBasic =
+  ["func (p Params) ValidateBasic() error",
+   "  err := validateTime(p.NoticePeriod)",
+   "  if err != nil",
+   "    return err",
+   "  err := validateLivenessSlashMultiplier(p.LivenessSlashMinMultiplier)",
+   "  if err != nil",
+   "    return err",
+   "  err := uparam.ValidateCoin(p.LivenessSlashMinAbsolute)",
+   "  if err != nil",
+   "    return err",
+   "  err := uparam.ValidateUint64(p.DishonorKickThreshold)",
+   "  if err != nil",
+   "    return err",
+   "  err := uparam.ValidateUint64(p.DishonorLiveness)",
+   "  if err != nil",
+   "    return err",
+   "  err := uparam.ValidateUint64(p.DishonorKickThreshold)",
+   "  if err != nil",
+   "    return err",
+   "  return nil"] := rfl
+
+/-- `validateTime`: the notice period must be positive -/
+theorem seqParamsValidateTime_skeleton : Gen.Core.L.seqParamsValidateTime =
+  ["func validateTime(i interface{}) error",
+   "  v, ok := i.(time.Duration)",
+   "  if !ok",
+   "    return fmt.Errorf(i)",
+   "  if v <= 0",
+   "    return fmt.Errorf(v)",
+   "  return nil"] := rfl
+
+/-- `validateLivenessSlashMultiplier`: within [0, 1] -/
+theorem seqParamsValidateMultiplier_skeleton : Gen.Core.L.seqParamsValidateMultiplier =
+  ["func validateLivenessSlashMultiplier(i interface{}) error",
+   "  return uparam.ValidateZeroToOneDec(i)"] := rfl
+
+/-- `PunishSequencerProposal.ProposalRoute` -/
+theorem punishProposalRoute_skeleton : Gen.Core.L.punishProposalRoute =
+  ["func (csp *PunishSequencerProposal) ProposalRoute() string",
+   "  return RouterKey"] := rfl
+
+/-- `PunishSequencerProposal.ValidateBasic` (only the v1beta1 submission path calls it; x/gov's
+    `ExecLegacyContent` does not: a proposal without a rewardee is executable) -/
+theorem punishProposalValidateBasic_skeleton : Gen.Core.L.punishProposalValidateBasic =
+  ["func (csp *PunishSequencerProposal) ValidateBasic() error",
+   "  err := govtypes.ValidateAbstract(csp)",
+   "  if err != nil",
+   "    return err",
+   "  if len(csp.PunishSequencerAddress) == 0",
+   "    return fmt.Errorf()",
+   "  if len(csp.Rewardee) == 0",
+   "    return fmt.Errorf()",
+   "  return nil"] := rfl
+
+/-- `PunishSequencerProposal.MustRewardee` as mirrored by the model (`rewardee : Option Addr`) -/
+theorem punishProposalMustRewardee_skeleton : Gen.Core.L.punishProposalMustRewardee =
+  ["func (csp PunishSequencerProposal) MustRewardee() *sdk.AccAddress",
+   "  if csp.Rewardee == \"\"",
+   "    return nil",
+   "  rewardee, _ := sdk.AccAddressFromBech32(csp.Rewardee)",
+   "  return &rewardee"] := rfl
 
 /-- `Keeper.slash` as mirrored by the model -/
 theorem slash_skeleton : Gen.Core.L.slash =
